@@ -11,7 +11,7 @@ void h_u_findpointer_b(void)
     struct t_tree t; cJSON *root, *target; unsigned i, k = nondet_uint_(); char *p; cJSON *back;
     VF_INIT();
     global_hooks.allocate = vf_alloc; global_hooks.deallocate = vf_free; global_hooks.reallocate = NULL;
-    root = t_build(&t, 0);
+    root = t_build_n(&t, 0, PT_NC, PT_NG);
     __CPROVER_assume(k < t.count);
     for (i = 0; i < T_MAXNODES; i++) { if (i < t.count) { int ty = t.node[i]->type & 0xFF; __CPROVER_assume(!(t.node[i]->type & cJSON_IsReference)); if (t.node[i]->child != NULL) __CPROVER_assume(ty == cJSON_Array || ty == cJSON_Object); } }
     if ((root->type & 0xFF) == cJSON_Object) { for (i = 1; i <= 2; i++) if (i <= t.nchildren) __CPROVER_assume(t.key[i] != NULL); if (t.nchildren == 2) __CPROVER_assume(t.key[1][0] != t.key[2][0]); }
@@ -26,7 +26,7 @@ void h_u_findpointer_b(void)
     cJSON_free(p);
     __CPROVER_assert(g_live == NULL, "C07 result released with cJSON_free, nothing else left");
     __CPROVER_assert(cJSONUtils_FindPointerFromObjectTo(NULL, target) == NULL && cJSONUtils_FindPointerFromObjectTo(root, NULL) == NULL, "C15 NULL arguments");
-    VF_COVER(k == 3 && t.ngrand == 1);
-    VF_COVER(k == 2 && (root->type & 0xFF) == cJSON_Object && (t.key[2][0] == '/' || t.key[2][0] == '~'));
+    VF_COVER(k + 1 == t.count);
+    VF_COVER(PT_NC == 0 || (k >= 1 && (root->type & 0xFF) == cJSON_Object && (t.key[k < 3 ? k : 1] == NULL || t.key[k < 3 ? k : 1][0] == '/' || t.key[k < 3 ? k : 1][0] == '~')));
     VF_COVER(k == 0);
 }
